@@ -74,8 +74,12 @@ def table(path):
                 at = {h: rng.choice(vals) for h in hs}
                 if all(v[0] == BIG for v in at.values()):
                     continue
+                near = trial % 4 >= 2       # half of the trials: remainders 1/2 + r * 2^-44 (order preserving, 2^-44 apart)
                 for h in rng.sample(hs, len(hs)):
-                    sched.push_event(mk(at[h][0], at[h][1], q0), h)
+                    if near and at[h][0] != BIG:
+                        sched.push_event(Time(float(q0 + at[h][0]), 0.5 + at[h][1] * 2.0 ** -44), h)
+                    else:
+                        sched.push_event(mk(at[h][0], at[h][1], q0), h)
                 if trial % 2:
                     # every second trial: the scheduler goes through a dump (pickle round trip) before it is asked
                     import pickle
